@@ -97,3 +97,42 @@ func runGlue(res *lib.Result, root string) {
 	check("watermark-at-entry-height-drops-it", len(got) == 0, fmt.Sprint(got))
 	_ = guard(s4.Close)
 }
+
+// runAlias: record.go setEntry copies the entry struct but not what Proposal.Value / Vote.ID point to,
+// and encodes at Flush time. A caller that reuses the value buffer between SetWALEntry and Flush
+// gets the later content persisted (known finding; proposed-fixes/C14-setentry-deep-copy.diff).
+func runAlias(res *lib.Result, root string) {
+	db := filepath.Join(root, "alias")
+	_ = os.RemoveAll(db)
+	defer os.RemoveAll(db)
+	st, err := openReal(db)
+	if err != nil {
+		res.Fatalf("alias: open: %v", err)
+		return
+	}
+	val := starknet.Value(limbs(11))
+	id := starknet.Hash(limbs(22))
+	prop := starknet.WALProposal{MessageHeader: starknet.MessageHeader{Height: 3, Round: 1, Sender: starknet.Address(limbs(1))}, ValidRound: -1, Value: &val}
+	vote := starknet.WALPrevote{MessageHeader: starknet.MessageHeader{Height: 3, Round: 1, Sender: starknet.Address(limbs(2))}, ID: &id}
+	wantProp, wantVote := canon(&prop), canon(&vote)
+	_ = guard(func() error { return st.SetWALEntry(&prop) })
+	_ = guard(func() error { return st.SetWALEntry(&vote) })
+	val[0] ^= 0xdead // the caller reuses its buffers
+	id[1] ^= 0xbeef
+	ferr := guard(st.Flush)
+	_ = guard(st.Close)
+	got, rerr := recoverReal(db)
+	res.Compared(1)
+	res.Case("alias/value-mutated-between-set-and-flush", true)
+	res.Hit("alias:checked")
+	if ferr != nil || rerr != nil || len(got) != 2 {
+		res.Fatalf("alias: flush %v, reopen %v, %d entries", ferr, rerr, len(got))
+		return
+	}
+	if got[0] != "3="+wantProp || got[1] != "3="+wantVote {
+		keepBest(lib.Violation{Sig: "entry-mutated-after-set-is-persisted",
+			What: "SetWALEntry(p); *p.Value (resp. *v.ID) modified; Flush() returns nil; after a restart LoadAllEntries yields the modified " +
+				"value: setEntry shares Proposal.Value / Vote.ID with the caller until the batch is encoded",
+			Replay: map[string]any{"ops": []Op{}, "alias": "proposal.Value, prevote.ID", "written": []string{wantProp, wantVote}, "recovered": got}})
+	}
+}
